@@ -60,6 +60,7 @@ def run(ctx):
     distinct = set()
     samples = []
     kinds, causes = {}, {}
+    core_bad = 0
     for line in mout.split("\n"):
         if not line.strip():
             continue
@@ -86,6 +87,8 @@ def run(ctx):
         distinct.add(hashlib.sha1(sp.encode()).hexdigest())
         if len(samples) < 6 and evals % 977 == 1:
             samples.append({"case": cid, "spec": sp[:200], "result": kv})
+        if kv.get("core") == "bad":
+            core_bad += 1
         if kv["eq"] == "ok":
             k["equal"] += 1
         else:
@@ -96,6 +99,7 @@ def run(ctx):
     for pl in f_viol:
         ctx.violation("corr", "Lean lexer/decoder port and the C code disagree on a scripted run", pl,
                       fingerprint={"level": "function"}, found_input=False)
+    ctx.oblige("model:coreChars=lexStream", core_bad == 0, "%d chunk drives on which the chunk logic of chars_chunk_indep and the full lexer port see different sequences" % core_bad)
     ctx.oblige("corr:lexer-port=lexer.c", f_bad == 0 and (f_cmp > 0 or bool(ctx.replay)), "%d/%d scripted runs differ" % (f_bad, f_cmp))
     ctx.coverage.update({
         "evaluations": evals, "distinct_nontrivial": len(distinct),
